@@ -21,7 +21,7 @@ RULE = (
     'non-integer exponent, or a reflected operator. Later rounds: signed denominators in (n,d) exponents; integer '
     'numpy arrays with dict units; reciprocal dimensions in a sum. Rounds 7-8: the same unit ids with other '
     'exponents on both sides of a sum; numpy scalars and arrays on the left; exponents given as numpy.float32 / '
-    'float16 and fractions.Fraction. Distinct = distinct case JSON.'
+    'float16 and fractions.Fraction. Round 9: exponents given as 0-d numpy arrays. Distinct = distinct case JSON.'
 )
 ASSUMPTIONS = [
     "linear table units only (temperature/logarithmic arithmetic is C05)",
